@@ -138,7 +138,9 @@ let () =
       if forest = "-" then incr parse_failed
       else begin
         let text_s = unesc (match String.index_opt case '|' with Some i -> String.sub case (i + 1) (String.length case - i - 1) | None -> case) in
-        if String.length text_s > max_model_len then incr skipped_long
+        let kind = (match String.index_opt case '|' with Some i -> String.sub case 0 i | None -> "") in
+        let expo_n = if has_prefix "expo-" kind then (try int_of_string (List.nth (String.split_on_char '-' kind) 2) with _ -> 99) else 0 in
+        if String.length text_s > max_model_len || expo_n > 14 then incr skipped_long
         else begin
           incr modelled;
           let t0 = Unix.gettimeofday () in
@@ -147,6 +149,12 @@ let () =
           incr shape_checked;
           if not (shape_ok text f) then report "model" case "shape|the token forest of the real meta-parser violates the shape invariant of grammar.pest" "shape_ok = true";
           let fuel = default_fuel text f in
+          (* the step count of the model's validator on the exponential families (Coq: validator_steps_exponential) *)
+          if has_prefix "expo-seq-" kind then begin
+            match consume_rules_with_spans fl text fuel f with
+            | ODone rules -> (match validate_steps rules fuel !builtins fl.extras with
+                              | Some st -> Printf.printf "#MODELSTEPS\tn=%d\tsteps=%d\n" expo_n (n2i st) | None -> ())
+            | _ -> () end;
           let m = frontend fl !builtins fuel text f in
           let mcls, merrs = match m with
             | FRules _ -> "rules", [] | FErrors l -> "errors", List.map (fun (k, l) -> (kind_name k, loc_s l)) l
